@@ -106,6 +106,9 @@ func solveAll(units []*UnitResult, dir string, timeoutSecs, workers int, crossCh
 	n := 0
 	for _, u := range units {
 		for _, o := range u.Obls {
+			if o.Kind == "scan" {
+				continue // decided syntactically
+			}
 			n++
 			jobs = append(jobs, job{u, o, n})
 		}
